@@ -47,6 +47,18 @@ def prepare(repo, work):
     shutil.copytree(repo, dst, ignore=shutil.ignore_patterns("target", ".git"))
     if not os.path.exists(os.path.join(dst, "Cargo.lock")) and os.path.exists("/repo/Cargo.lock"):
         shutil.copy("/repo/Cargo.lock", os.path.join(dst, "Cargo.lock"))
+    # N3 (visibility -> pub) on the scratch copy, exactly as for the Verus pass, so that a harness
+    # appended to one module can build and inspect the private structs of another
+    import weave
+    for rel in weave.SRC_FILES:
+        sp = os.path.join(dst, rel)
+        if not os.path.exists(sp):
+            raise RuntimeError("kani: source file %s missing" % rel)
+        src = open(sp, encoding="utf-8").read()
+        fw = weave.FileWeaver(rel, src, {}, {}, "", {"N1": [], "N2": [], "N3": 0})
+        fw.weave()
+        txt, _, _, _ = fw.render(kinds={"N3"})
+        open(sp, "w", encoding="utf-8").write(txt)
     by_target = {}
     for f in sorted(os.listdir(KDIR)):
         if not f.endswith(".rs"):
@@ -70,8 +82,55 @@ def prepare(repo, work):
     return dst
 
 
-def run_harnesses(repo, hs, jobs=8):
-    """returns {name: {status: ok|fail|undecided, secs, detail}}"""
+def _classify(blk, secs):
+    """verdict for the output of ONE harness"""
+    st, detail = "undecided", ""
+    mt = re.search(r"Verification Time: ([0-9.]+)s", blk)
+    hsecs = float(mt.group(1)) if mt else secs
+    if "VERIFICATION:- SUCCESSFUL" in blk:
+        st = "ok"
+        if re.search(r"\*\* 0 of \d+ cover properties satisfied", blk):
+            st, detail = "undecided", "cover property unreachable (vacuous harness)"
+    elif "VERIFICATION:- FAILED" in blk:
+        if re.search(r"timed out|out of memory|CBMC failed", blk, re.I) and "Failed Checks:" not in blk:
+            st, detail = "timeout", "CBMC timeout / resource failure"
+        elif re.search(r"Failed Checks: .*unwinding assertion", blk) and not re.search(r"Failed Checks: (?!.*unwinding assertion)", blk):
+            st, detail = "undecided", "unwinding bound too small"
+        else:
+            st = "fail"
+            detail = "\n".join(l for l in blk.split("\n") if "Failed Checks" in l or "File:" in l)[:3000]
+    elif "error: could not compile" in blk or "error[E" in blk:
+        detail = "harness does not build on this tree\n" + "\n".join(l for l in blk.split("\n") if l.startswith("error"))[:1500]
+    else:
+        detail = blk[-1500:]
+    mc = re.search(r"\*\* (\d+) of (\d+) failed", blk)
+    mv = re.search(r"\*\* (\d+) of (\d+) cover properties satisfied", blk)
+    return {"status": st, "secs": round(hsecs, 1), "detail": detail,
+            "checks": int(mc.group(2)) if mc else 0, "covers": int(mv.group(1)) if mv else 0}
+
+
+def _cargo_kani(dst, env, names, jobs, tmax):
+    cmd = ["cargo", "kani", "-Z", "unstable-options", "-Z", "function-contracts", "-Z", "stubbing",
+           "--harness-timeout", "%ds" % tmax, "--exact"]
+    if jobs > 1 and len(names) > 1:
+        cmd += ["--output-format", "terse", "-j", str(min(jobs, len(names)))]
+    for n in names:
+        cmd += ["--harness", n]
+    t0 = time.time()
+    try:
+        p = subprocess.run(cmd, cwd=dst, env=env, stdout=subprocess.PIPE, stderr=subprocess.STDOUT, text=True,
+                           timeout=tmax * max(1, (len(names) + jobs - 1) // jobs) + 900)
+        out = p.stdout
+    except subprocess.TimeoutExpired as e:
+        out = (e.stdout or "") if isinstance(e.stdout, str) else ""
+        out += "\nOVERALL TIMEOUT\n"
+    return "CARGO_NET_OFFLINE=true " + " ".join(cmd), out, time.time() - t0
+
+
+def run_harnesses(repo, hs, jobs=6):
+    """returns ({name: {status: ok|fail|timeout|undecided, secs, detail, checks, covers}}, cmds).
+    Pass 1 runs all harnesses in parallel and trusts only Kani's by-name summary; every harness
+    the summary does not list as verified is re-run alone (pass 2) for an exact verdict."""
     res = {}
     if not hs:
         return res, []
@@ -82,78 +141,85 @@ def run_harnesses(repo, hs, jobs=8):
             dst = prepare(repo, work)
         except Exception as e:
             for h in hs:
-                res[h["name"]] = {"status": "undecided", "secs": 0, "detail": str(e)}
+                res[h["name"]] = {"status": "undecided", "secs": 0, "detail": str(e), "checks": 0, "covers": 0}
             return res, cmds
         env = dict(os.environ, CARGO_NET_OFFLINE="true", CARGO_TARGET_DIR=os.path.join(work, "target"))
+        full = {h["name"]: "%s::verif_kani_%s::%s" % (mod_path(h["target"]), h["file"][:-3], h["name"]) for h in hs}
         tmax = max(h["timeout"] for h in hs)
-        cmd = ["cargo", "kani", "-Z", "unstable-options", "-Z", "function-contracts", "-Z", "stubbing",
-               "--harness-timeout", "%ds" % tmax, "--output-format", "terse", "-j", str(min(jobs, len(hs))), "--exact"]
-        for h in hs:
-            cmd += ["--harness", "%s::verif_kani_%s::%s" % (mod_path(h["target"]), h["file"][:-3], h["name"])]
-        cmds.append("CARGO_NET_OFFLINE=true " + " ".join(cmd))
-        t0 = time.time()
-        try:
-            p = subprocess.run(cmd, cwd=dst, env=env, stdout=subprocess.PIPE, stderr=subprocess.STDOUT, text=True,
-                               timeout=tmax * max(1, (len(hs) + jobs - 1) // jobs) + 600)
-            out = p.stdout
-        except subprocess.TimeoutExpired as e:
-            out = (e.stdout or "") if isinstance(e.stdout, str) else ""
-            out += "\nOVERALL TIMEOUT\n"
-        secs = time.time() - t0
-        open(os.path.join(VERIF, ".cache", "kani-last.log"), "w").write(out) if os.path.isdir(os.path.join(VERIF, ".cache")) else None
-        # parse output: with -j each thread prints "Thread N: Checking harness X..." and later
-        # a block "Thread N: \nVERIFICATION RESULT ... VERIFICATION:- ..."; a thread handles
-        # several harnesses one after the other, in the order of its "Checking" lines
-        thread_q = {}
-        for m in re.finditer(r"^(?:Thread (\d+): )?Checking harness (\S+?)\.\.\.", out, re.M):
-            thread_q.setdefault(m.group(1) or "0", []).append(m.group(2))
-        blocks = {}
-        parts = re.split(r"^(?=Thread \d+: *$)", out, flags=re.M)
-        seen_idx = {}
-        for part in parts:
-            m = re.match(r"Thread (\d+): *\n", part)
-            if not m or "VERIFICATION:-" not in part:
-                continue
-            t = m.group(1)
-            k = seen_idx.get(t, 0)
-            seen_idx[t] = k + 1
-            if t in thread_q and k < len(thread_q[t]):
-                blocks[thread_q[t][k]] = part
-        if not blocks and len(hs) == 1:
-            blocks["%s::verif_kani_%s::%s" % (mod_path(hs[0]["target"]), hs[0]["file"][:-3], hs[0]["name"])] = out
-        for h in hs:
-            full = "%s::verif_kani_%s::%s" % (mod_path(h["target"]), h["file"][:-3], h["name"])
-            st = "undecided"
-            detail = ""
-            blk = blocks.get(full, "")
-            mt = re.search(r"Verification Time: ([0-9.]+)s", blk)
-            hsecs = float(mt.group(1)) if mt else secs
-            if "VERIFICATION:- SUCCESSFUL" in blk:
-                st = "ok"
-                if re.search(r"\*\* 0 of \d+ cover properties satisfied", blk):
-                    st = "undecided"
-                    detail = "cover property unreachable (vacuous harness)"
-            elif "VERIFICATION:- FAILED" in blk:
-                if re.search(r"timed out|out of memory|CBMC failed", blk, re.I) and "Failed Checks:" not in blk:
-                    st = "timeout"
-                    detail = "CBMC timeout / resource failure"
-                elif re.search(r"Failed Checks: .*unwinding assertion", blk) and not re.search(r"Failed Checks: (?!.*unwinding assertion)", blk):
-                    st = "undecided"
-                    detail = "unwinding bound too small"
-                else:
-                    st = "fail"
-                    detail = "\n".join(l for l in blk.split("\n") if "Failed Checks" in l or "File:" in l)[:3000]
-            elif not blk:
-                detail = "no result for harness (build error or name mismatch)\n" + out[-1500:]
+        if len(hs) == 1:
+            cmd, out, secs = _cargo_kani(dst, env, [full[hs[0]["name"]]], 1, tmax)
+            cmds.append(cmd)
+            res[hs[0]["name"]] = _classify(out, secs)
+            return res, cmds
+        cmd, out, secs = _cargo_kani(dst, env, [full[h["name"]] for h in hs], jobs, tmax)
+        cmds.append(cmd)
+        if os.path.isdir(os.path.join(VERIF, ".cache")):
+            open(os.path.join(VERIF, ".cache", "kani-last.log"), "w").write(out)
+        failed = set(re.findall(r"Verification failed for - (\S+)", out))
+        done = re.search(r"Complete - (\d+) successfully verified harnesses, (\d+) failures, (\d+) total", out)
+        checks = [int(x) for x in re.findall(r"\*\* \d+ of (\d+) failed", out)]
+        covers = [int(x) for x in re.findall(r"\*\* (\d+) of \d+ cover properties satisfied", out)]
+        redo = []
+        for i, h in enumerate(hs):
+            if done and int(done.group(3)) == len(hs) and full[h["name"]] not in failed:
+                res[h["name"]] = {"status": "ok", "secs": round(secs, 1), "detail": "", "checks": 0, "covers": 0}
             else:
-                detail = blk[-1500:]
-            mc = re.search(r"\*\* (\d+) of (\d+) failed", blk)
-            mv = re.search(r"\*\* (\d+) of (\d+) cover properties satisfied", blk)
-            res[h["name"]] = {"status": st, "secs": round(hsecs, 1), "detail": detail,
-                              "checks": int(mc.group(2)) if mc else 0, "covers": int(mv.group(1)) if mv else 0}
+                redo.append(h)
+        if covers and min(covers) == 0:
+            redo = list(hs)      # some harness has an unreachable cover: find out which, exactly
+        elif done and not redo:
+            # distribute the per-harness counts (order unknown, only the totals are used)
+            for i, h in enumerate(hs):
+                res[h["name"]]["checks"] = checks[i] if i < len(checks) else 0
+                res[h["name"]]["covers"] = covers[i] if i < len(covers) else 0
+        for h in redo:
+            cmd, o1, s1 = _cargo_kani(dst, env, [full[h["name"]]], 1, h["timeout"])
+            cmds.append(cmd)
+            res[h["name"]] = _classify(o1, s1)
     finally:
         shutil.rmtree(work, ignore_errors=True)
     return res, cmds
+
+
+def playback(repo, h, keep_dir=None):
+    """re-run a failed harness with concrete playback: Kani prints a unit test holding the
+    counterexample; the test is appended to the real source file (scratch copy) and executed with
+    `cargo kani playback`. Returns dict(test=code, output=text, reproduced=bool)."""
+    work = tempfile.mkdtemp(prefix="avt-kanipb-")
+    out = {"test": "", "output": "", "reproduced": False}
+    try:
+        dst = prepare(repo, work)
+        env = dict(os.environ, CARGO_NET_OFFLINE="true", CARGO_TARGET_DIR=os.path.join(work, "target"))
+        full = "%s::verif_kani_%s::%s" % (mod_path(h["target"]), h["file"][:-3], h["name"])
+        cmd = ["cargo", "kani", "-Z", "unstable-options", "-Z", "function-contracts", "-Z", "stubbing", "-Z", "concrete-playback",
+               "--concrete-playback=print", "--harness-timeout", "%ds" % h["timeout"], "--exact", "--harness", full]
+        p = subprocess.run(cmd, cwd=dst, env=env, stdout=subprocess.PIPE, stderr=subprocess.STDOUT, text=True, timeout=h["timeout"] + 600)
+        m = re.search(r"```\s*\n(#\[test\].*?)```", p.stdout, re.S)
+        if not m:
+            out["output"] = p.stdout[-3000:]
+            return out
+        test = m.group(1)
+        out["test"] = test
+        tm = re.search(r"fn (kani_concrete_playback_\w+)", test)
+        tname = tm.group(1) if tm else ""
+        # put the test inside the harness module of the scratch copy and run it on the real code
+        src = os.path.join(dst, h["target"])
+        txt = open(src, encoding="utf-8").read()
+        marker = "mod verif_kani_%s {\n    use super::*;\n" % h["file"][:-3]
+        if marker in txt and tname:
+            txt = txt.replace(marker, marker + "\n" + "\n".join("    " + l for l in test.split("\n")) + "\n", 1)
+            open(src, "w", encoding="utf-8").write(txt)
+            cmd2 = ["cargo", "kani", "playback", "-Z", "concrete-playback", "--", tname]
+            p2 = subprocess.run(cmd2, cwd=dst, env=env, stdout=subprocess.PIPE, stderr=subprocess.STDOUT, text=True, timeout=1200)
+            out["output"] = p2.stdout[-4000:]
+            out["reproduced"] = ("panicked" in p2.stdout or "FAILED" in p2.stdout) and tname in p2.stdout
+        if keep_dir:
+            os.makedirs(keep_dir, exist_ok=True)
+    except Exception as e:
+        out["output"] += "\nplayback driver error: %s" % e
+    finally:
+        shutil.rmtree(work, ignore_errors=True)
+    return out
 
 
 def mod_path(target):
@@ -193,7 +259,7 @@ def run_for_property(repo, prop, tier):
             out["trusted"].append("kani/%s: %s holds beyond the bound (%s) - bounded stand-in, not proved" % (h["file"], h["obligation"], h.get("bound", "")))
         if r["status"] == "fail":
             out["violations"].append({"obligation": h["obligation"], "tags": h["props"], "engine": "kani", "message": "Kani harness %s failed" % h["name"],
-                                      "file": h["target"], "line": None, "rendered": r["detail"], "clause": None})
+                                      "file": h["target"], "line": None, "rendered": r["detail"], "clause": None, "harness": h})
         elif r["status"] == "timeout":
             # resource exhaustion of the bounded model checker is not a verdict about the code and
             # depends on machine load: recorded, the unit is simply not counted
